@@ -109,7 +109,8 @@ class C01(Prop):
             from fractions import Fraction as Fr
             from rtverif.props.c08 import Speller, U
             per, unit, mode, sseed = case['period']
-            P = per[0] * U[per[1]]
+            from rtverif.props.c08 import period_ns
+            P = period_ns(per)
             sp = Speller(random.Random(sseed), P, unit, mode)
             try:
                 sd = {'text': lang.to_text(f, ivl_printer=sp.ivl), 'vars': names, 'consts': sp.consts,
